@@ -620,10 +620,12 @@ void QXmppPresence::toXml(QXmlStreamWriter *xmlWriter) const
     }
 
     // XEP-0319: Last User Interaction in Presence
-    if (!d->lastUserInteraction.isNull() && d->lastUserInteraction.isValid()) {
+    // a valid date-time beyond year 9999 has no XEP-0082 representation: write nothing rather than an <idle/> without 'since'
+    if (const auto since = QXmppUtils::datetimeToString(d->lastUserInteraction);
+        !d->lastUserInteraction.isNull() && d->lastUserInteraction.isValid() && !since.isEmpty()) {
         xmlWriter->writeStartElement(QSL65("idle"));
         xmlWriter->writeDefaultNamespace(toString65(ns_idle));
-        writeOptionalXmlAttribute(xmlWriter, u"since", QXmppUtils::datetimeToString(d->lastUserInteraction));
+        xmlWriter->writeAttribute(QSL65("since"), since);
         xmlWriter->writeEndElement();
     }
 
